@@ -26,6 +26,9 @@ def render_pdf(html, opts, timeout=10, capture=None):
     docs.quiet()
     opts = dict(opts)
     zoom = opts.pop('zoom', 1)
+    if opts.get('attachments'):      # [[name, content], …] (JSON-able in the replay files) -> Attachment objects
+        from weasyprint import Attachment
+        opts['attachments'] = [Attachment(string=content, name=name) for name, content in opts['attachments']]
 
     def on_alarm(signum, frame):
         raise RenderTimeout()
@@ -115,7 +118,7 @@ def structural_problem(data, document=None):
             if pdf.resolve(page.get('Parent')) is None:
                 return 'page without /Parent'
         pdfread.content_streams(pdf)
-        return kinds_problem(pdf) or struct_tree_problem(pdf)
+        return kinds_problem(pdf) or struct_tree_problem(pdf) or name_tree_problem(pdf)
     except pdfread.PdfError as exc:
         return f'independent reader: {exc}'
 
@@ -312,6 +315,100 @@ def struct_tree_problem(pdf):
     return None
 
 
+def name_tree_keys(pdf, which):
+    """Keys (the bytes the string objects denote) of the /Names array of the catalog's /Dests or /EmbeddedFiles name
+    tree, in array order; None when there is no such tree."""
+    names = pdf.resolve(pdf.catalog.get('Names'))
+    tree = pdf.resolve(names.get(which)) if isinstance(names, dict) else None
+    array = pdf.resolve(tree.get('Names')) if isinstance(tree, dict) else None
+    if tree is None:
+        return None
+    if not (isinstance(array, list) and len(array) % 2 == 0 and all(isinstance(k, bytes) for k in array[::2])):
+        raise pdfread.PdfError(f'/Names /{which} has no /Names array of (string, value) pairs')
+    return [bytes(k) for k in array[::2]]
+
+
+def font_array_problem(line, impl, meta):
+    """The /W array must give every used glyph id its width back (PDF 32000-1 9.7.4.3: `c [w1 … wn]` gives the widths of
+    the consecutive CIDs from c), the /CIDSet must have exactly the bits of the used glyph ids (9.8.1, table 124)."""
+    widths = {int(k): v for k, v in meta['widths'].items()}
+    if impl.startswith('err:'):
+        return f'_build_vector_font_dictionary raised {impl[4:]} on the widths {widths}'
+    if line.startswith('warray'):
+        decoded, items = {}, impl.replace('[', ' [ ').replace(']', ' ] ').split()
+        pos = 0
+        while pos < len(items):
+            start, pos = int(items[pos]), pos + 2
+            while items[pos] != ']':
+                decoded[start] = int(items[pos])
+                start, pos = start + 1, pos + 1
+            pos += 1
+        if decoded != widths:
+            return f'/W array [{impl}] gives the glyph widths {decoded}, the font has {widths}'
+    if line.startswith('cidset '):
+        used = {i for i, bit in enumerate(impl) if bit == '1'}
+        if used != set(widths) or len(impl) % 8:
+            return f'/CIDSet bits {impl} mark the glyph ids {sorted(used)}, the font uses {sorted(widths)}'
+    return None
+
+
+def font_array_replay(meta):
+    import ast
+    import types
+    import pydyf
+    from weasyprint.pdf.fonts import _build_vector_font_dictionary
+    widths = {int(k): v for k, v in meta['widths'].items()}
+    version = ast.literal_eval(meta['version'])
+    font = types.SimpleNamespace(type='ttf', descent=-200, ascent=800, flags=4, widths=dict(widths), name=b'/ABCDEF+X',
+                                 family=b'X', italic_angle=0, stemv=80, stemh=80)
+    pdf, font_dictionary = pydyf.PDF(), pydyf.Dictionary()
+    file_stream = pydyf.Stream([b'x'])
+    pdf.add_object(file_stream)
+    try:
+        _build_vector_font_dictionary(font_dictionary, pdf, font, widths, False, file_stream.reference, version)
+    except Exception as exc:  # noqa: BLE001
+        return font_array_problem('warray', f'err:{type(exc).__name__}', meta)
+    sub = pdf.objects[int(font_dictionary['DescendantFonts'][0].split()[0])]
+    shown = ' '.join(str(item) if isinstance(item, int) else '[' + ' '.join(str(w) for w in item) + ']'
+                     for item in sub['W'])
+    what = font_array_problem('warray', shown, meta)
+    descriptor = pdf.objects[int(sub['FontDescriptor'].split()[0])]
+    if what is None and 'CIDSet' in descriptor:
+        data = b''.join(pdf.objects[int(descriptor['CIDSet'].split()[0])].stream)
+        what = font_array_problem('cidset ', ''.join(f'{byte:08b}' for byte in data), meta)
+    return what
+
+
+def pydyf_number(value):
+    import pydyf
+    return pydyf._to_bytes(value).decode()
+
+
+def pydyf_literal(key):
+    """`pydyf.String(key).data` for a bytes key: the serialised literal string."""
+    import pydyf
+    return pydyf.String(key).data
+
+
+def name_tree_problem(pdf):
+    """PDF 32000-1 7.9.6: the keys of a name tree are sorted in lexical byte order (a reader searches it by bisection),
+    and the /Dests tree has one entry per anchor.  /EmbeddedFiles: the listed finding
+    embedded-files-sorted-by-serialised-key (keys ordered by `(` + escaped text + `)` instead of the text; repeated file
+    names) is counted, any other disorder is a problem."""
+    keys = name_tree_keys(pdf, 'Dests')
+    if keys is not None:
+        for a, b in zip(keys, keys[1:]):
+            if not a < b:
+                return f'/Dests name tree: key {a!r} is followed by {b!r} (keys must be sorted by bytes, without repeats)'
+    keys = name_tree_keys(pdf, 'EmbeddedFiles')
+    if keys is not None and keys != sorted(keys):
+        if [pydyf_literal(k) for k in keys] == sorted(pydyf_literal(k) for k in keys):
+            KNOWN_STRUCTURE_SEEN['embedded-files-sorted-by-serialised-key'] += 1
+        else:
+            return f'/EmbeddedFiles name tree: keys {keys!r} are not sorted by bytes'
+    return None
+
+
 def stream_problem(ops, cats):
     """The content-stream clauses of C16 stated directly (judge): known operators with operands of the right number
     and type, brackets, text objects, names defined."""
@@ -381,7 +478,8 @@ def document_problem(html, opts):
 class C16(PropCheck):
     id = 'C16'
     extractors = (pdf_tags.generate,)
-    modules = ('WpModel.Props.C16', 'WpModel.Props.C16File', 'WpModel.Props.C16More', 'WpModel.Witness.C16')
+    modules = ('WpModel.Props.C16', 'WpModel.Props.C16File', 'WpModel.Props.C16More', 'WpModel.Props.C16Fonts',
+               'WpModel.Props.C16Cache', 'WpModel.Witness.C16')
     trusted_base = (
         'modelled, not verified: pdf/stream.py Stream (operator state machine, caches, peepholes, resource '
         'registration), draw/stack.py stacked, the page loop of generate_pdf (Model/PdfStream, Model/PdfPages)',
@@ -395,15 +493,39 @@ class C16(PropCheck):
     assumptions = (
         'object syntax, cross-reference table, trailer and stream compression are pydyf (site-packages): checked by '
         'the independent reader on every generated document, not modelled',
-        'font embedding / ToUnicode (pdf/fonts.py via fontTools) and the XMP metadata packet are not modelled',
+        'font programs (subsetting through fontTools / HarfBuzz), glyph metrics and the XMP metadata packet are not '
+        'modelled; of pdf/fonts.py the model covers which fonts get a /Font entry and a font file, the /W array and '
+        'the /CIDSet bits (Model/PdfFonts)',
     )
 
     # ---- correspondence ---------------------------------------------------------------------------------------
     def correspondence(self, run):
+        self.regressions(run)
         self.stream_scripts(run)
         self.small_functions(run)
         self.serializer(run)
+        self.font_arrays(run)
         self.documents(run)
+
+    def regressions(self, run):
+        """Corpus first: the inputs of the repaired findings (`fixed:` lines) must stay repaired."""
+        sec = run.section(
+            'regressions',
+            'the failing inputs of the repaired findings of this property (fixed: lines of known_findings.txt), '
+            'rendered first in every run: write_pdf must succeed, the file and every content stream must satisfy the '
+            'clauses of C16 stated directly (document_problem), plus the finding\'s own observation (fill alpha of the '
+            'second text, order of the /Dests keys); the Lean checker must accept every stream')
+        for name, (html, opts, extra) in REGRESSION_INPUTS.items():
+            what = document_problem(html, opts)
+            if what is None and extra is not None:
+                what = extra()
+            meta = {'html': html, 'options': opts, 'regression': name}
+            sec.add(sx.line('check', [], [], [], [], [], [], [], []), 'ok' if what is None else f'{name}: {what}',
+                    meta=meta, tags=[f'regression:{name}'])
+            if what is None:
+                _, data = render_pdf(html, opts)
+                for label, ops, cats in pdfread.content_streams(pdfread.Document(data)):
+                    sec.add(check_line(ops, cats), 'ok', meta=dict(meta, stream=label), tags=['regression-stream'])
 
     def stream_scripts(self, run):
         sec = run.section(
@@ -494,6 +616,53 @@ class C16(PropCheck):
                 sec2.add(pdffile.writefile_line(pdf, version, identifier), pdffile.written_text(data, pdf),
                          meta={'objects': len(pdf.objects)}, nontrivial=len(pdf.objects) > 3, tags=tags)
 
+    def font_arrays(self, run):
+        """The /W array and the /CIDSet bit string of a CID font, on the real `_build_vector_font_dictionary`."""
+        import types
+        import pydyf
+        from weasyprint.pdf.fonts import _build_vector_font_dictionary
+        sec = run.section(
+            'font-arrays',
+            'random glyph width tables (runs of consecutive glyph ids, gaps, glyph 0, a single glyph, none) through the '
+            'real `_build_vector_font_dictionary` with a mock font, for PDF versions on both sides of 1.4: the /W array '
+            'item by item and the bits of the /CIDSet stream (written only for version <= 1.4 and a non-empty table) '
+            'against Model/PdfFonts `wArray` / `cidSetBits`; non-trivial = at least two groups of consecutive ids')
+        for _ in range(run.n(300, 6000)):
+            cids, cid = [], run.rng.choice([0, 0, 1, 3, 40])
+            for _ in range(run.rng.choice([0, 1, 2, 5, 12, 30])):
+                cids.append(cid)
+                cid += run.rng.choice([1, 1, 1, 2, 5, 9])
+            widths = {c: run.rng.choice([0, 250, 500, 600, 1000, -10]) for c in cids}
+            version = run.rng.choice(['1.4', '1.3', '1.7', None, b'1.4', '2.0', b'1.5'])
+            font = types.SimpleNamespace(type=run.rng.choice(['ttf', 'otf']), descent=-200, ascent=800, flags=4,
+                                         widths=dict(widths), name=b'/ABCDEF+X', family=b'X', italic_angle=0, stemv=80,
+                                         stemh=80)
+            pdf, font_dictionary = pydyf.PDF(), pydyf.Dictionary()
+            file_stream = pydyf.Stream([b'x'])
+            pdf.add_object(file_stream)
+            meta = {'widths': {str(k): v for k, v in widths.items()}, 'version': repr(version)}
+            try:
+                _build_vector_font_dictionary(font_dictionary, pdf, font, widths, False, file_stream.reference, version)
+            except Exception as exc:  # noqa: BLE001
+                sec.add(sx.line('warray', *[[c, w] for c, w in sorted(widths.items())]), f'err:{type(exc).__name__}',
+                        meta=meta, tags=['raised'])
+                continue
+            sub = pdf.objects[int(font_dictionary['DescendantFonts'][0].split()[0])]
+            shown = ' '.join(str(item) if isinstance(item, int) else '[' + ' '.join(str(w) for w in item) + ']'
+                             for item in sub['W'])
+            groups = sum(1 for item in sub['W'] if isinstance(item, int))
+            sec.add(sx.line('warray', *[[c, w] for c, w in sorted(widths.items())]), shown, meta=meta,
+                    nontrivial=groups >= 2, tags=[f'groups{min(groups, 4)}'])
+            descriptor = pdf.objects[int(sub['FontDescriptor'].split()[0])]
+            expect_cidset = str(version) <= '1.4' and bool(widths)
+            if 'CIDSet' in descriptor:
+                data = b''.join(pdf.objects[int(descriptor['CIDSet'].split()[0])].stream)
+                bits = ''.join(f'{byte:08b}' for byte in data)
+                sec.add(sx.line('cidset', max(cids), *cids), bits, meta=meta, nontrivial=len(cids) > 1, tags=['cidset'])
+            sec.add(sx.line('cidsetwritten', str(version) if not isinstance(version, bytes) else repr(version),
+                            bool(widths)), str('CIDSet' in descriptor).lower(), meta=meta,
+                    tags=['cidset-written' if expect_cidset else 'cidset-absent'])
+
     def documents(self, run):
         sec = run.section(
             'document-streams',
@@ -510,7 +679,9 @@ class C16(PropCheck):
             'the same write_pdf runs with every API call on every real Stream recorded (all of draw/*, svg/*, images, '
             'pdf/anchors): the stream model replays the recorded calls and must reproduce every stream token by token '
             'and every resource dictionary key by key, and the calls on each stream must be well bracketed at the API '
-            'level (`wb=ok`: the hypothesis of theorem `balanced`). non-trivial = more than one stream or marked content')
+            'level (`wb=ok`: the hypothesis of theorem `balanced`) and follow the cache discipline (`cs=ok`: no set_color / '
+            'set_alpha between a raw set_color_space / set_color_special / set_state(ca) and the next pop_state — the '
+            'hypothesis of theorem `cache_sound_scoped`). non-trivial = more than one stream or marked content')
         sec_skel = run.section(
             'document-skeleton',
             'the same runs against Model/DrawSkeleton: the calls draw_stacking_context makes itself are predicted from '
@@ -518,6 +689,14 @@ class C16(PropCheck):
             'stacking context; what it delegates (draw_background, draw_border, draw_inline_level …) is replayed from '
             'the recording; all streams and resource dictionaries compared. non-trivial = some context has opacity < 1, '
             'a transform, a clip or a nested context')
+        sec_fonts = run.section(
+            'document-fonts',
+            'the same runs, fonts: the keys of the /Font dictionary of the written PDF, in order (independent reader), '
+            'and the font names used by `Tf` in any content stream that the /Font dictionary in effect does not define, '
+            'against Model/PdfFonts on `document.fonts` (hash, bitmap, used_in_forms of every registered font), whether '
+            'the catalog has an /AcroForm, and the Tf names; and, per drawn line of text, the `set_font_size` calls of '
+            'draw_first_line against `drawLine` on the recorded `add_font` calls. non-trivial = more than one font, or a '
+            'font that drew no glyph (empty cmap)')
         sec_file = run.section(
             'document-file',
             'the same runs, file level: whether pydyf used object streams (version >= 1.5 and compress, model '
@@ -561,7 +740,8 @@ class C16(PropCheck):
             if recorder is not None:
                 mark = variant == 'pdf/ua-1'
                 hits = api_events(recorder.log)
-                sec_api.add(sx.line('docscript', mark, *[apilog.wire_call(c) for c in recorder.log]), recorder.show(),
+                sec_api.add(sx.line('docscript', mark, *[apilog.wire_call(c) for c in recorder.log]),
+                            recorder.show(wb='wb=ok cs=ok'),
                             meta=meta, nontrivial=len(recorder.streams) > 1 or mark,
                             tags=[f'variant:{variant}', f'streams{min(len(recorder.streams) // 5 * 5, 30)}+'] + hits)
                 try:
@@ -586,6 +766,39 @@ class C16(PropCheck):
                 sec.add(check_line(ops, cats), 'ok', meta=dict(meta, stream=label), nontrivial=bool(skeleton),
                         tags=[f'variant:{variant}', f'stream:{kind}',
                               'compressed' if not opts['uncompressed_pdf'] else 'uncompressed'])
+            # fonts: /Font keys and undefined Tf names
+            fonts = list(document.fonts.values())
+            used, undefined, font_keys = [], [], None
+            for label, ops, cats in pdfread.content_streams(pdf):
+                if font_keys is None:
+                    font_keys = [str(k) for k in cats['Font']]
+                for op, operands in ops:
+                    if op == 'Tf' and operands and isinstance(operands[0], pdfread.Name):
+                        name = str(operands[0])
+                        if name not in used:
+                            used.append(name)
+                        if name not in cats['Font'] and name not in undefined:
+                            undefined.append(name)
+            acro_form = 'AcroForm' in pdf.catalog
+            empty = [f.hash for f in fonts if not f.cmap]
+            sec_fonts.add(
+                sx.line('fontdict', acro_form, used, *[[f.hash, bool(f.bitmap), bool(f.used_in_forms)] for f in fonts]),
+                f'F={",".join(font_keys or [])} U={",".join(undefined)}', meta=meta,
+                nontrivial=len(fonts) > 1 or bool(empty),
+                tags=[f'fonts{min(len(fonts), 5)}', 'acroform' if acro_form else 'no-acroform'] +
+                     (['font:empty-cmap'] if empty else []) + (['font:used-in-forms'] if any(
+                         f.used_in_forms for f in fonts) else []) + (['font:bitmap'] if any(f.bitmap for f in fonts) else []))
+            if recorder is not None:
+                seen_lines = set()
+                for runs, tfs in apilog.text_lines(recorder.font_events):
+                    # add_font is called on a change of PangoFont only: consecutive calls are different objects
+                    line = sx.line('textfonts', *[[i, key, name, bitmap, pdfstream.num(size)]
+                                                  for i, (key, name, bitmap, size) in enumerate(runs)])
+                    got = ' '.join('missing' if tf is None else f'{tf[0]}:{pydyf_number(tf[1])}' for tf in tfs)
+                    if (line, got) not in seen_lines:
+                        seen_lines.add((line, got))
+                        sec_fonts.add(line, got, meta=meta, nontrivial=len(runs) > 1,
+                                      tags=[f'line-fonts{min(len(runs), 3)}'])
             # the file around the objects: pydyf's writer against Model/PdfFile, the Lean file checker on the real bytes
             version, identifier = resolved_write_args(opts)
             classic = data[pdf.xref_pos:pdf.xref_pos + 5] == b'xref\n'
@@ -607,8 +820,11 @@ class C16(PropCheck):
                              ' '.join(pdffile.hx(k) for k in keys), meta=meta, nontrivial=len(keys) > 1,
                              tags=['destnames', 'destnames:non-ascii' if any(not n.isascii() for n in names) else
                                    'destnames:ascii'])
-                if keys != sorted(keys):     # listed finding dests-names-unsorted
-                    KNOWN_STRUCTURE_SEEN['dests-names-unsorted'] += 1
+            keys = name_tree_keys(pdf, 'EmbeddedFiles')
+            if keys:
+                sec_file.add(sx.line('embeddednames', *[list(k) for k in reversed(keys)]),
+                             ' '.join(pdffile.hx(k) for k in keys), meta=meta, nontrivial=len(keys) > 1,
+                             tags=['embeddednames', f'embedded{min(len(keys), 4)}'])
             if i % 10 == 0:
                 problem = compression_problem(html, opts)
                 run.extra['compressed_vs_plain_checked'] = run.extra.get('compressed_vs_plain_checked', 0) + 1
@@ -627,7 +843,20 @@ class C16(PropCheck):
     # ---- judge / search / replay --------------------------------------------------------------------------------
     def judge(self, d):
         section, meta = d['section'], d.get('meta') or {}
-        if section in ('document-streams', 'document-api', 'document-skeleton'):
+        if section == 'font-arrays':
+            return font_array_problem(d['line'], d['impl'], meta)
+        if section == 'regressions':
+            what = document_problem(meta['html'], decode_options(meta['options']))
+            extra = REGRESSION_INPUTS[meta['regression']][2]
+            what = what or (extra() if extra else None)
+            return f'repaired finding {meta["regression"]} is back: {what}' if what else None
+        if section == 'document-file' and d['line'].startswith('destnames'):
+            keys = d['impl'].split()
+            if any(not bytes.fromhex(a[1:]) < bytes.fromhex(b[1:]) for a, b in zip(keys, keys[1:])):
+                return (f'/Dests name tree keys {[bytes.fromhex(k[1:]) for k in keys]} are not sorted by bytes '
+                        f'(PDF 32000-1 7.9.6) [options {meta["options"]}]')
+            return None
+        if section in ('document-streams', 'document-api', 'document-skeleton', 'document-file', 'document-fonts'):
             # every disagreement is one document rendered again: judge the first few, the rest adds nothing
             self._doc_judged = self.__dict__.get('_doc_judged', 0) + 1
             if self._doc_judged > 8 and self.__dict__.get('_kinds_judged'):
@@ -704,10 +933,8 @@ class C16(PropCheck):
 
     def finding_replays(self):
         replays = {name: (lambda name=name: crash_replay(name)) for name in CRASH_INPUTS}
-        replays['alpha-state-stale-cache'] = alpha_state_replay
-        replays['none-component-unsupported-space'] = none_component_replay
         replays['pattern-zero-step'] = pattern_zero_step_replay
-        replays['dests-names-unsorted'] = dests_unsorted_replay
+        replays['embedded-files-sorted-by-serialised-key'] = embedded_files_replay
         replays['mcid-in-group-stream'] = mcid_in_group_replay
         return replays
 
@@ -717,6 +944,9 @@ class C16(PropCheck):
         if 'html' in meta:
             opts = decode_options(meta['options'])
             what = document_problem(meta['html'], opts) or compression_problem(meta['html'], opts)
+            extra = REGRESSION_INPUTS.get(meta.get('regression'), (None, None, None))[2]
+            if what is None and extra is not None:
+                what = extra()
             if what or inp.get('section') != 'page-tree':
                 return what
             document, pdf_bytes = render_pdf(meta['html'], opts)
@@ -725,6 +955,8 @@ class C16(PropCheck):
             got = page_tree_text(pdf)
             want = lean.run_driver(self.driver, [sx.line('pagetree', Fraction(opts.get('zoom', 1)), *page_geoms(document))])[0]
             return None if got == want else f'page boxes {got} != {want}'
+        if 'widths' in meta:
+            return font_array_replay(meta)
         if 'tag' in meta:
             from weasyprint.pdf.stream import Stream
             got, want = Stream.get_marked_content_tag(None, meta['tag']), EXPECTED_TAGS.get(meta['tag'])
@@ -826,9 +1058,6 @@ def context_kinds(props):
 
 # Crashes of write_pdf already recorded in known_findings.txt: (exception class, innermost weasyprint function).
 KNOWN_CRASHES = {
-    ('ZeroDivisionError', 'clip_border_segment'): 'border-dash-zero-division',
-    ('UnboundLocalError', 'columns_layout'): 'column-float-unbound-local',
-    ('IndexError', '_build_vector_font_dictionary'): 'cidset-empty-font',
     # Color.to('srgb') exists only for srgb / hsl / hwb: gradients (images.py) and 3D border styles (draw/color.py)
     ('NotImplementedError', 'draw'): 'colour-to-srgb-not-implemented',
     ('NotImplementedError', 'darken'): 'colour-to-srgb-not-implemented',
@@ -837,15 +1066,7 @@ KNOWN_CRASHES = {
 
 PAGE_CSS = '<style>@page{size:100px}body{margin:0;font-size:10px}</style>'
 CRASH_INPUTS = {
-    'border-dash-zero-division': (
-        PAGE_CSS + '<div style="border:3px dashed red;border-radius:50%;width:1px;height:1px"></div>', {}),
-    'cidset-empty-font': (PAGE_CSS + '<input>', {'pdf_forms': True, 'pdf_variant': 'pdf/a-1b'}),
     'colour-to-srgb-not-implemented': (PAGE_CSS + '<div style="border:4px groove lab(50 20 30)">a</div>', {}),
-    'column-float-unbound-local': (
-        '<style>@page{size:64px 80px;margin:5px}body{font-size:10px;margin:0}</style> d<table><td style="border:4px '
-        'groove gray">bb cc</td></table><div style="border:3px dashed rgba(0,0,0,0.5);column-count:2"><table><td '
-        'style="border:3px dashed rgba(0,0,0,0.5)">d</td></table><table style="float:right"><td style="border:3px '
-        'dashed rgba(0,0,0,0.5)">aa</td></table></div>', {}),
 }
 
 
@@ -866,6 +1087,12 @@ def pattern_zero_step_replay():
                0 in (v.extra.get('XStep'), v.extra.get('YStep')) for v in pdf.objects.values())
 
 
+def embedded_files_replay():
+    """Attachments named `a` and `a b`: is the /EmbeddedFiles name array still `a b`, `a` (sorted by `(a b)` < `(a)`)?"""
+    _, data = render_pdf(PAGE_CSS + '<p>a</p>', {'attachments': [['a', '1'], ['a b', '2']]})
+    return name_tree_keys(pdfread.Document(data), 'EmbeddedFiles') == [b'a b', b'a']
+
+
 def mcid_in_group_replay():
     """Tagged PDF: do marked-content identifiers still restart at 0 inside an opacity group (a form XObject without
     /StructParents), colliding with the page's own MCIDs?"""
@@ -879,21 +1106,22 @@ def mcid_in_group_replay():
     return False
 
 
-def none_component_replay():
-    """`color(display-p3 none 0 1)`: does the page stream still contain the word `None` before `rg`?"""
-    what = document_problem(PAGE_CSS + '<p style="color:color(display-p3 none 0 1)">a</p>', {'uncompressed_pdf': True})
-    return bool(what) and 'None' in what
+ALPHA_STATE_HTML = (
+    PAGE_CSS.replace('font-size:10px', 'font-size:10px;color:rgba(255,0,0,0.5)') + '<p style="margin:0">aa</p>'
+    f'<div style="position:relative;mask-border:url({c16docs.PNG_URI}) 1">bb</div>')
 
 
-def alpha_state_replay():
-    """Second text of colour rgba(255,0,0,.5), drawn after a mask-border soft mask was set: executed under ca 0.5?"""
-    html = (PAGE_CSS.replace('font-size:10px', 'font-size:10px;color:rgba(255,0,0,0.5)') + '<p style="margin:0">aa</p>'
-            f'<div style="position:relative;mask-border:url({c16docs.PNG_URI}) 1">bb</div>')
-    _, data = render_pdf(html, {'uncompressed_pdf': True})
+def alpha_state_regression():
+    """Fixed finding alpha-state-stale-cache: the second text of colour rgba(255,0,0,.5), drawn after a mask-border soft
+    mask (ExtGState with ca 1) was set, must be executed under ca 0.5.  -> text | None"""
+    _, data = render_pdf(ALPHA_STATE_HTML, {'uncompressed_pdf': True})
     pdf = pdfread.Document(data)
     label, ops, cats = pdfread.content_streams(pdf)[0]
     alphas = text_fill_alphas(pdf, ops, cats)
-    return len(alphas) == 2 and alphas[0] == Fraction(1, 2) and alphas[1] != Fraction(1, 2)
+    if alphas != [Fraction(1, 2), Fraction(1, 2)]:
+        return (f'texts of colour rgba(255,0,0,.5) before and after a mask-border soft mask are painted under fill alpha '
+                f'{[str(a) for a in alphas]}, requested 1/2 and 1/2 (stale _current_alpha after set_alpha_state)')
+    return None
 
 
 def text_fill_alphas(pdf, ops, cats):
@@ -943,10 +1171,36 @@ def decode_key(key):
     return key[2:].decode('utf-16-be') if key[:2] == b'\xfe\xff' else key.decode('ascii')
 
 
-def dests_unsorted_replay():
-    _, data = render_pdf(PAGE_CSS + '<a href="#a\u00e9">x</a><a href="#b">y</a><p id="a\u00e9">1</p><p id="b">2</p>', {})
+DESTS_HTML = PAGE_CSS + '<a href="#a\u00e9">x</a><a href="#b">y</a><p id="a\u00e9">1</p><p id="b">2</p>'
+
+
+def dests_regression():
+    """Fixed finding dests-names-unsorted: anchors `aé` and `b` give two keys, `b` first (its byte 62 < FE)."""
+    _, data = render_pdf(DESTS_HTML, {})
     keys = dest_keys(pdfread.Document(data))
-    return len(keys) == 2 and keys != sorted(keys)
+    if keys != [b'b', b'\xfe\xff\x00a\x00\xe9']:
+        return f'/Dests keys of anchors `a\u00e9`, `b` are {keys!r}, sorted by bytes they are b, <FEFF 0061 00E9>'
+    return None
+
+
+# Failing inputs of the repaired findings (fixed: lines): html, options, extra observation (-> text | None) or None.
+REGRESSION_INPUTS = {
+    'border-dash-zero-division': (
+        PAGE_CSS + '<div style="border:3px dashed red;border-radius:50%;width:1px;height:1px"></div>', {}, None),
+    'cidset-empty-font': (PAGE_CSS + '<input>', {'pdf_forms': True, 'pdf_variant': 'pdf/a-1b'}, None),
+    'column-float-unbound-local': (
+        '<style>@page{size:64px 80px;margin:5px}body{font-size:10px;margin:0}</style> d<table><td style="border:4px '
+        'groove gray">bb cc</td></table><div style="border:3px dashed rgba(0,0,0,0.5);column-count:2"><table><td '
+        'style="border:3px dashed rgba(0,0,0,0.5)">d</td></table><table style="float:right"><td style="border:3px '
+        'dashed rgba(0,0,0,0.5)">aa</td></table></div>', {}, None),
+    'none-component-unsupported-space': (
+        PAGE_CSS + '<p style="color:color(display-p3 none 0 1);border:1px solid color(rec2020 0 none 1 / 0.5)">a</p>',
+        {'uncompressed_pdf': True}, None),
+    'alpha-state-stale-cache': (ALPHA_STATE_HTML, {'uncompressed_pdf': True}, alpha_state_regression),
+    'dests-names-unsorted': (DESTS_HTML, {}, dests_regression),
+    'emc-on-group-stream': (
+        PAGE_CSS + '<div style="opacity:.5;transform:scale(0)">a</div><p>b</p>', {'pdf_variant': 'pdf/ua-1'}, None),
+}
 
 
 def resolved_write_args(opts):
@@ -1029,15 +1283,14 @@ def paint_states(tokens):
 def cache_problem(driver, meta, line=None, impl_out=None):
     """cache_sound stated directly: every painting operator of the real stream is executed under the colour, alpha and
     font the caller last requested, i.e. under the state of the cache-free reference emission of the same calls.
-    Calls that change alpha or colour behind the caches (set_state with ca/CA, set_alpha_state, cs, scn) are first
-    replaced by neutral ones (that case is the listed finding alpha-state-stale-cache); the cleaned script is run again
-    on the real Stream."""
+    The raw pydyf-level calls that bypass the caches by construction (a bare set_state with ca/CA, cs, scn: the
+    hypothesis `Call.cacheSafe` of theorem cache_sound) are first replaced by neutral ones; `set_alpha_state` is kept
+    (since its repair it must be cache-sound: fixed finding alpha-state-stale-cache); the cleaned script is run again on
+    the real Stream."""
     from vlib import lean
     clean = []
     for call in meta['script']:
-        if call[0] == 'alphastate':
-            clean += [['group', call[1]], ['on', call[1], 'state', None, None, 'other']]
-        elif call[0] == 'on' and call[2] == 'state':
+        if call[0] == 'on' and call[2] == 'state':
             clean.append(['on', call[1], 'state', None, None, call[5]])
         elif call[0] == 'on' and call[2] in ('cs', 'scn'):
             continue
@@ -1115,10 +1368,6 @@ def script_problem(meta, impl_out):
         return None
     if impl_out.startswith('err:'):
         return f'well-bracketed API sequence raised {impl_out[4:]}'
-    # a `none` component in a colour space set_color does not convert is written as `None` by the unchanged code
-    known_none = any(
-        c[0] == 'on' and c[2] == 'color' and isinstance(c[3], dict) and c[3]['space'] not in pdfstream.RGB_TARGET and
-        any(v is None for v in c[3]['coords']) for c in script)
     streams, resources = impl_out.split(' || ')[0:2]
     res_list = resources.split(' | ')
     for i, part in enumerate(streams.split(' | ')[1:]):
@@ -1131,8 +1380,6 @@ def script_problem(meta, impl_out):
         for tok in toks.split():
             op = tok.rsplit('_', 1)[-1]
             pieces = tok.split('_')[:-1]
-            if 'None' in pieces and known_none:
-                continue         # listed finding none-component-unsupported-space
             if op in NUMERIC_ARITY and (len(pieces) != NUMERIC_ARITY[op] or not all(
                     PDF_NUMBER.fullmatch(x) for x in pieces)):
                 return f'stream {i}: `{tok}`: `{op}` takes {NUMERIC_ARITY[op]} numbers'
@@ -1173,13 +1420,19 @@ MANIFEST = {
             '(check_sound); draw_stacking_context is stack-neutral and every group stream ends balanced, incl. opacity + '
             'singular transform (skeleton_balanced); every gs/Do/sh/pattern name is a key of the emitting stream\'s '
             'dictionary and generated keys are fresh (resources_defined, keys_fresh); caches are sound when nothing '
-            'changes alpha/colour behind them (cache_sound_partial; the full statement is refuted: finding '
-            'alpha-state-stale-cache); one page object per page with the box arithmetic (page_tree, page_boxes); file '
+            'changes alpha/colour behind them through the raw pydyf setters, set_alpha_state included since its repair '
+            '(cache_sound); one page object per page with the box arithmetic, all three page boxes scale with zoom '
+            '(page_tree, page_boxes, page_boxes_zoom); file '
             'level: xref offsets and startxref of pydyf\'s writer model are correct for every object list '
             '(xref_offsets_correct), the Lean file checker is sound and accepts everything the writer model produces '
             '(check_file_sound, checker_accepts_writer); Stream can only raise the unmatched-pop assertion '
             '(stream_raises_only_assert); sub-resource dictionaries are never shared (resources_unshared); /Dests keys '
-            'sorted for ASCII names (names_sorted_partial; full statement refuted: finding dests-names-unsorted).',
+            'sorted by bytes for all anchor names, one key per anchor (names_sorted); /EmbeddedFiles keys sorted when no '
+            'file name holds a byte <= `)` or a backslash (embedded_files_sorted_partial; full statement refuted: finding '
+            'embedded-files-sorted-by-serialised-key); every font draw_first_line names by Tf is registered and every '
+            'registered font — with or without a drawn glyph — is a key of /Font, no KeyError (text_fonts_defined, '
+            'fonts_defined, fonts_total); caches sound around the raw setters under the stacked discipline the recorded '
+            'runs follow (cache_sound_scoped).',
     'note': 'pydyf object syntax / xref / trailer / compression, font embedding (fontTools) and XMP metadata are checked '
             'only by the independent reader (py/harness/pdfread.py) on generated documents, not modelled. Skeleton '
             'theorem: delegated drawing restricted to calls on the current stream (streams created by images / '
